@@ -186,8 +186,17 @@ fn views_oracle(d: &D, obs: &mut Obs) -> Check {
         let back: Value = serde_json::from_str(&js).map_err(|e| Failure::new("views: JSON text of a value does not deserialise", format!("{js} {e}")))?;
         check("serde_json text round trip", &back, false).map_err(|f| Failure::new(f.sig, format!("json={js} {}", f.detail)))?;
         let ys = serde_yaml::to_string(&v).map_err(|e| Failure::new("views: YAML serialisation fails", e.to_string()))?;
-        let back: Value = serde_yaml::from_str(&ys).map_err(|e| Failure::new("views: YAML text of a value does not deserialise", format!("{ys:?} {e}")))?;
-        check("serde_yaml text round trip", &back, false).map_err(|f| Failure::new(f.sig, format!("yaml={ys:?} {}", f.detail)))?;
+        // The YAML crate's own emitter does not quote every string its own parser reads as a
+        // number (e.g. "0o0"): when the crate does not round-trip its OWN document tree through
+        // that text, the difference is the crate's, not the value model's (found by the thorough tier)
+        let own_tree: Option<serde_yaml::Value> = serde_yaml::to_value(&v).ok();
+        let own_back: Option<serde_yaml::Value> = serde_yaml::from_str(&ys).ok();
+        if own_tree.is_some() && own_tree == own_back {
+            let back: Value = serde_yaml::from_str(&ys).map_err(|e| Failure::new("views: YAML text of a value does not deserialise", format!("{ys:?} {e}")))?;
+            check("serde_yaml text round trip", &back, false).map_err(|f| Failure::new(f.sig, format!("yaml={ys:?} {}", f.detail)))?;
+        } else {
+            obs.class("yaml_crate_does_not_round_trip_its_own_text");
+        }
     }
     obs.extra_evals += 9;
     Ok(())
